@@ -42,7 +42,7 @@ def gen_default(ch, typ, label):
     if spicy and base == "str":
         return {"v": ch.choice(label + ".sstr", ["it's", 'say "hi"', "a\\b", "50%", "{x}", "a:b", "x=1, y=2", "#tag", "", " padded ", "tab\there", "caf\u00e9",
                                                    # quote characters at the ends: the same one, two different ones
-                                                   "'\"", "'%s\"", '"quoted"', "--name=\"x\""])}
+                                                   "'\"", "'%s\"", '"quoted"', "--name=\"x\"", "\"'", "\"%d'", "'\"", "'%s\""])}
     if base == "int":
         return {"v": ch.choice(label + ".int", [0, 1, 2, 3, 5, 10, 32, 100, -1, -7])}
     if base == "float":
